@@ -360,6 +360,12 @@ class Report:
             json.dump(payload, f, indent=1, default=str)
         self.violations.append((path, "" if found_input else " no-failing-input-found"))
 
+    def defer_divergence(self, payload):
+        """model and implementation differ on a case: remembered (the first one), reported by conclude_proofs only if no
+        monitor produced a concrete failing input on any case"""
+        if getattr(self, "deferred", None) is None:
+            self.deferred = payload
+
     def known(self, what):
         self.known_hits.append(what)
 
@@ -475,6 +481,9 @@ def prepare(rep, need_model=True, sanitize=False, tag=None):
 def conclude_proofs(rep, found_concrete):
     """If a proof obligation is broken and no concrete failing input was
     reported, the property is no longer shown to hold."""
+    if getattr(rep, "deferred", None) is not None and not rep.violations:
+        rep.violation("correspondence", rep.deferred, found_input=False)
+        found_concrete = True
     if not getattr(rep, "proof_ok", True) and not found_concrete:
         rep.violation("proof", {"what": "a theorem of Properties_%s.v (or a lemma/model it depends on) no longer checks" % rep.pid,
                                 **rep.proof_problem}, found_input=False)
